@@ -102,8 +102,9 @@ namespace foonathan
             memory_pool& operator=(memory_pool&& other) noexcept
             {
                 leak_checker::operator=(detail::move(other));
-                arena_     = detail::move(other.arena_);
+                // the free list first: its old nodes live in the blocks the arena assignment releases
                 free_list_ = detail::move(other.free_list_);
+                arena_     = detail::move(other.arena_);
                 return *this;
             }
             /// @}
